@@ -79,7 +79,7 @@ def run_chain(start, hops, max_rounds=80, redirectable=True):
             if beta.responses:
                 break
             idle = idle + 1 if before == after else 0
-            if idle >= 4:
+            if idle >= 12:
                 break
     except Exception as ex:
         error = type(ex).__name__
